@@ -15,10 +15,10 @@ class DescriptionNode(BaseNode):
             return DescriptionNode(parser)
                      
     def parse(self, env):
-        if env.nodes[-1].keyword not in ['str','int','float','bool']:
-            raise Exception("Description can be set only to str, int, float and bool nodes:", env.nodes[-1].code)
-        if env.nodes[-1].description == None:
-            env.nodes[-1].description = str(self.value_raw)
+        if env.property_target().keyword not in ['str','int','float','bool']:
+            raise Exception("Description can be set only to str, int, float and bool nodes:", env.property_target().code)
+        if env.property_target().description == None:
+            env.property_target().description = str(self.value_raw)
         else:
-            env.nodes[-1].description += str(self.value_raw)
+            env.property_target().description += str(self.value_raw)
         return None
